@@ -79,6 +79,11 @@ func makeKeyed(r *tape.Rng, key int64, src int32) gen.Keyed {
 	if len(k.Pay) > 40 {
 		k.Pay = k.Pay[:40]
 	}
+	if r.Intn(6) == 0 {
+		// many rows sharing a prefix that a truncated column index bound cannot
+		// be incremented past
+		k.Pay = "\xff\xff\xff"[:1+r.Intn(3)] + k.Pay
+	}
 	for n := r.Intn(4); n > 0; n-- {
 		k.Tags = append(k.Tags, int32(r.Intn(100)))
 	}
